@@ -13,6 +13,10 @@ canonical spelling decides the same property for every spelling:
                                         (both operands side-effect free: names, attributes,
                                         subscripts of those, constants, unary operators on those).
 
+* ``x: T = e`` on a plain local name inside a function  ->  ``x = e`` (annotations of locals are never
+  evaluated; the annotation is kept on the node as ``_annotation`` for the type environment);
+* ``pass`` statements are dropped from bodies that contain anything else.
+
 Only single-operator comparisons are touched; chained comparisons, ``==``, ``!=``, ``is``, ``in``
 are left alone.  Positions of moved nodes are kept, so reports still point at the source line.
 """
@@ -49,6 +53,46 @@ def constant_like(e: ast.AST) -> bool:
 class Canon(ast.NodeTransformer):
     def __init__(self):
         self.count = 0
+        self.fn_depth = 0
+
+    def _function(self, node):
+        self.fn_depth += 1
+        self.generic_visit(node)
+        self.fn_depth -= 1
+        self._strip_pass(node)
+        return node
+
+    visit_FunctionDef = _function
+    visit_AsyncFunctionDef = _function
+
+    def visit_ClassDef(self, node):
+        saved, self.fn_depth = self.fn_depth, 0
+        self.generic_visit(node)
+        self.fn_depth = saved
+        return node
+
+    def visit_AnnAssign(self, node: ast.AnnAssign):
+        self.generic_visit(node)
+        if self.fn_depth and node.value is not None and isinstance(node.target, ast.Name):
+            self.count += 1
+            new = ast.copy_location(ast.Assign(targets=[node.target], value=node.value, type_comment=None), node)
+            new._annotation = node.annotation  # type: ignore[attr-defined]
+            return new
+        return node
+
+    def _strip_pass(self, node):
+        for fld in ("body", "orelse", "finalbody"):
+            b = getattr(node, fld, None)
+            if isinstance(b, list) and len(b) > 1 and any(isinstance(x, ast.Pass) for x in b):
+                kept = [x for x in b if not isinstance(x, ast.Pass)] or [b[0]]
+                self.count += len(b) - len(kept)
+                setattr(node, fld, kept)
+
+    def generic_visit(self, node):
+        super().generic_visit(node)
+        if isinstance(node, (ast.If, ast.For, ast.AsyncFor, ast.While, ast.With, ast.AsyncWith, ast.Try, ast.ExceptHandler, ast.match_case)):
+            self._strip_pass(node)
+        return node
 
     def visit_If(self, node: ast.If):
         self.generic_visit(node)
